@@ -40,6 +40,18 @@ def tykey(ty):
     return 'i64' if ty.tag == 'I64' else ident(ty.args[0])
 
 
+def clauses_in_declaration_order(prog, ty, clauses, what):
+    """the back ends dispatch by POSITION (tag = index in the declaration, jump table in clause order): a (co)match must
+    list exactly the declared xtors in declaration order"""
+    t = prog.types.get(tykey(ty))
+    if t is None:
+        return
+    want = [ident(x['name']) for x in t['xtors']]
+    have = [ident(c['xtor']) for c in clauses]
+    if want != have:
+        raise Stuck(f"{what}: clauses {[h[0] for h in have]} are not the declared xtors in declaration order {[w[0] for w in want]}")
+
+
 def value_fits(prog, b, v):
     """does the run-time value v inhabit the declared kind / type of the binding b"""
     k = tykey(b['ty'])
@@ -109,6 +121,7 @@ def nstmt(prog, ctx, s, env):
         env2[ident(s['var'])] = ('obj', ident(s['tag']), vals)
         return Bounce(lambda: nstmt(prog, ctx, s['next'], env2))
     if tag == 'Switch':
+        clauses_in_declaration_order(prog, s['ty'], s['clauses'], f"switch {s['var']['name']}")
         v = nlook(env, ident(s['var']))
         if v[0] != 'obj':
             raise Stuck(f"switch on {v[0]}")
@@ -123,6 +136,7 @@ def nstmt(prog, ctx, s, env):
                 return Bounce(lambda: nstmt(prog, ctx, c['body'], env2))
         raise Stuck(f"no clause for {v[1][0]}")
     if tag == 'Create':
+        clauses_in_declaration_order(prog, s['ty'], s['clauses'], f"create {s['var']['name']}")
         env2 = dict(env)
         env2[ident(s['var'])] = ('clo', s['clauses'], dict(env))
         return Bounce(lambda: nstmt(prog, ctx, s['next'], env2))
